@@ -1,4 +1,4 @@
-import BumpVerif.Proofs.Frame
+import BumpVerif.Proofs.Live
 import BumpVerif.Props.GenFacts
 /-!
 # C04 — returned pointers honour the requested and the minimum alignment
@@ -30,6 +30,20 @@ theorem dealloc_keeps_finger_aligned {E p sz} (s : St) (hE : EnvOK E) (h : Arena
     ∀ c ∈ (dealloc E p sz s).1.a.chunks, (dealloc E p sz s).1.a.M ∣ c.ptr :=
   fun c hc => ((dealloc_spec s hE h hblk).2.1.chunks c hc).ptr_al
 
+/-- **All histories.** After any admissible history every live block's address is a multiple of
+`MIN_ALIGN` (and non-null), and every chunk finger is `MIN_ALIGN`-aligned — including blocks that
+came out of `grow`/`shrink` and fingers moved by `dealloc`, rewinds and `reset`. -/
+theorem history_min_align {E} (hE : EnvOK E) (ops : List Op) (y : Sys) (inv : LiveInv E y) (hrun : RunOK E ops y) :
+    (∀ b ∈ (sysRun E ops y).1.live, (sysRun E ops y).1.st.a.M ∣ b.ptr ∧ 0 < b.ptr) ∧
+    (∀ c ∈ (sysRun E ops y).1.st.a.chunks, (sysRun E ops y).1.st.a.M ∣ c.ptr) := by
+  have h := (sysRun_live hE ops y inv hrun).1
+  exact ⟨fun b hb => ⟨(h.blocks b hb).1, (h.blocks b hb).2.1⟩, fun c hc => (h.wf.chunks c hc).ptr_al⟩
+
+/-- `grow` and `shrink` results honour the new alignment and `MIN_ALIGN` -/
+theorem realloc_aligned {E s s' p osz nsz nal q} (post : ReallocPost E s s' p osz nsz nal (.ok q)) :
+    nal ∣ q ∧ s.a.M ∣ q :=
+  ⟨(post.ok q rfl).2.1, (post.ok q rfl).2.2.1⟩
+
 /-- Constructors refuse an unsupported minimum alignment with a panic. -/
 theorem ctor_refuses (E M cap : Nat) (f : Bool) (s : St)
     (h : ¬ (IsPow2 M ∧ M ≤ CHUNK_ALIGN)) : (newArena E M cap f s).2 = .panic := by
@@ -55,5 +69,7 @@ end Bump.C04
 #print axioms Bump.C04.fast_aligned
 #print axioms Bump.C04.alloc_aligned
 #print axioms Bump.C04.dealloc_keeps_finger_aligned
+#print axioms Bump.C04.history_min_align
+#print axioms Bump.C04.realloc_aligned
 #print axioms Bump.C04.ctor_refuses
 #print axioms Bump.C04.static_aligned
